@@ -810,23 +810,27 @@ def linkOf (k : KW RefD) (hn : Nat) (name : Bytes) : Option Nat :=
 def mergeLinks (k : KW RefD) (hn : Nat) (srcs : List Nat) : Option (List (List Nat)) :=
   srcs.mapM fun s => (objsOf k s).mapM fun x => linkOf k hn x.name
 
+/-- `h = src[0].Clone(); h.SortOrder = UnknownOrder; h.GroupOrder = GroupUnspecified` -/
+def mergeInit (w : World) (s0 : Nat) : World :=
+  let hn := w.hdrs.length
+  let w := cloneHeader w s0
+  match w.hdrs[hn]? with
+  | some f => setHdr w hn { f with so := 0, go := 0 }
+  | none => w
+
 /-- `MergeHeaders(src)` for two or more sources (repaired: links resolved by name at the end).
 Returns the world (the merged header is the new last header) and the link table. -/
 def mergeHeaders (w : World) (srcs : List Nat) : World × Res × List (List Nat) :=
   match srcs with
   | s0 :: s1 :: ss =>
     let hn := w.hdrs.length
-    let w := cloneHeader w s0
-    let w := match w.hdrs[hn]? with
-      | some f => setHdr w hn { f with so := 0, go := 0 }
-      | none => w
-    match mergeSources w.refs w.nextUri hn (s1 :: ss) with
+    let w1 := mergeInit w s0
+    match mergeSources w1.refs w1.nextUri hn (s1 :: ss) with
     | (k, p, .ok) =>
-      let w := { w with refs := k, nextUri := p }
       match mergeLinks k hn srcs with
-      | some ls => (w, .ok, ls)
-      | none => (markDead w hn, .panic, [])
-    | (k, p, r) => (markDead { w with refs := k, nextUri := p } hn, r, [])
+      | some ls => ({ w1 with refs := k, nextUri := p }, .ok, ls)
+      | none => (markDead { w1 with refs := k, nextUri := p } hn, .panic, [])
+    | (k, p, r) => (markDead { w1 with refs := k, nextUri := p } hn, r, [])
   | _ => (pushHeader w { dead := true }, .skip, [])
 
 /-- `Header.Set` -/
